@@ -21,7 +21,7 @@ def table_expr(table):
 
 
 def dec_params(table, compat=False, maxlabel=99, known=None, gen=True, alphabet=(), maxlen=0, first=None,
-               allow_empty=True, trace=False, extra=""):
+               allow_empty=True, trace=False, extra="", raw=None):
     """Text of a generated DecParams.tla (plain definitions: evaluated once by TLC)."""
     alphabet = list(alphabet)
     first = list(first) if first is not None else alphabet
@@ -35,6 +35,11 @@ def dec_params(table, compat=False, maxlabel=99, known=None, gen=True, alphabet=
              "Input == <<>>",
              "FirstSyms == %s" % tla_set(first),
              "AllowEmpty == %s" % ("TRUE" if allow_empty else "FALSE")]
+    if raw:
+        chars, n, rfirst = raw
+        lines += ["RawChars == %s" % tla_set(chars), "RawLen == %d" % n, "RawFirst == %s" % tla_set(rfirst)]
+    else:
+        lines += ['RawChars == {"["}', "RawLen == 1", "RawFirst == RawChars"]
     if trace:
         lines.append("Tr == JsonDeserialize(IOEnv.TRACE_FILE)")
         lines.append("KnownSyms == UNION {{Tr[i].inp[j] : j \\in 1..Len(Tr[i].inp)} : i \\in 1..Len(Tr)}")
@@ -82,14 +87,14 @@ def partitions(alphabet, nparts):
 def run_decoder_tlc(name, alphabet, table, maxlen, compat=False, maxlabel=99, emit=False,
                     invariants=(), view=False, spec="FastSpec", coverage=False, nparts=None,
                     timeout=3000, properties=(), extends="DecodeCall", emit_name="Emit",
-                    extra_defs="", heap="2g", fastjit=False):
+                    extra_defs="", heap="2g", fastjit=False, raw=None):
     """Run one configuration, partitioned over parallel single-worker TLC processes.
     Returns (list of TlcResult, vectors)."""
     nparts = nparts or min(NCPU, len(alphabet))
     if coverage:
         nparts = 1
     work = scratch("dec_%s_" % name)
-    parts = partitions(alphabet, nparts)
+    parts = partitions(alphabet if raw is None else raw[0], nparts)
     jobs = []
     for pi, first in enumerate(parts):
         mod = "MC_%s_%d" % (name, pi)
@@ -97,7 +102,9 @@ def run_decoder_tlc(name, alphabet, table, maxlen, compat=False, maxlabel=99, em
         os.makedirs(sub)
         with open(os.path.join(sub, "DecParams.tla"), "w") as f:
             f.write(dec_params(table, compat=compat, maxlabel=maxlabel, alphabet=alphabet, maxlen=maxlen,
-                               first=first, allow_empty=(pi == 0)))
+                               first=(first if raw is None else None), allow_empty=(pi == 0),
+                               known=(alphabet if raw is None else []),
+                               raw=(None if raw is None else (raw[0], raw[1], first))))
         with open(os.path.join(sub, mod + ".tla"), "w") as f:
             f.write(mc_module(mod, extends=extends, extra_defs=extra_defs))
         cfg = mc_cfg(spec=("CovSpec" if coverage else spec),
@@ -318,3 +325,78 @@ def validate_decoder_trace(name, records, table, compat=False, maxlabel=99, npro
                 e["tid"] = r.idxs[e["tid"] - 1]
             events.append(e)
     return results, events
+
+
+# --------------------------------------------------------------------------
+# constant-level obligations (ASSUMEs of ConstChecks.tla) and implementation tables
+# --------------------------------------------------------------------------
+
+def run_const_checks(extra_module_text=None, name="ConstChecks"):
+    """Evaluate the ASSUMEs of spec/ConstChecks.tla (or of a generated module extending it).
+    Returns (TlcResult, list of failed assumption texts)."""
+    import re as _re
+    from common import SPEC_DIR
+    work = scratch("const_")
+    if extra_module_text:
+        mod = name
+        src = extra_module_text
+    else:
+        mod = "ConstChecks"
+        src = open(os.path.join(SPEC_DIR, "ConstChecks.tla")).read()
+    with open(os.path.join(work, mod + ".tla"), "w") as f:
+        f.write(src)
+    r = run_tlc(work, mod, "SPECIFICATION Spec\n", workers=1, timeout=600, fastjit=True)
+    failed = []
+    lines = src.split("\n")
+    for e in r.errors:
+        m = _re.search(r"Assumption line (\d+), col \d+ to line \d+, col \d+ of module (\w+) is false", e)
+        if m:
+            ln = int(m.group(1))
+            failed.append(lines[ln - 1].strip() if m.group(2) == mod and ln <= len(lines) else e)
+    if not r.completed and not failed:
+        raise MachineryError("constant-level check did not complete:\n" + r.log[-2000:])
+    return r, failed
+
+
+def impl_tables_module():
+    """ImplTables.tla: the data tables of the working tree, compared with the specification's."""
+    sf = selfies_mod()
+    out = ["---- MODULE ImplTables ----", "EXTENDS Constraints, SmilesReader"]
+    asserts = []
+    try:
+        from selfies import constants as C
+        out.append("ImplIndex == %s" % tla_seq(list(C.INDEX_ALPHABET)))
+        asserts.append(("index alphabet", "ImplIndex = INDEX_ALPHABET"))
+        out.append("ImplElements == %s" % tla_set(sorted(C.ELEMENTS)))
+        asserts.append(("elements", "ImplElements = ELEMENTS"))
+        out.append("ImplOrganic == %s" % tla_set(sorted(C.ORGANIC_SUBSET)))
+        asserts.append(("organic subset", "ImplOrganic = ORGANIC"))
+        out.append("ImplAromatic == %s" % tla_set(sorted(C.AROMATIC_SUBSET)))
+        asserts.append(("aromatic subset", "ImplAromatic = AROMATIC_SUBSET"))
+        for el, vals in sorted(C.AROMATIC_VALENCES.items()):
+            asserts.append(("aromatic valences of %s" % el,
+                            "AroValences(%s) = {%s}" % (tla_str(el), ", ".join(str(v) for v in vals))))
+    except Exception as e:      # refactored away: skipped, the behavioural engines still cover it
+        out.append("\\* constants not extractable: %s" % type(e).__name__)
+    try:
+        for nm, tl in (("default", "DefaultTable"), ("octet_rule", "OctetTable"), ("hypervalent", "HypervalentTable")):
+            t = sf.get_preset_constraints(nm)
+            out.append("Impl_%s == %s" % (nm, tla_table(t)))
+            asserts.append(("preset %s" % nm, "Impl_%s = %s" % (nm, tl)))
+    except Exception as e:
+        out.append("\\* presets not extractable: %s" % type(e).__name__)
+    try:
+        from selfies import grammar_rules as G
+        out.append("ImplBranch == %s" % tla_set(sorted(G._PROCESS_BRANCH_CACHE)))
+        asserts.append(("branch symbols", "ImplBranch = BranchSymbolSet"))
+        out.append("ImplRing == %s" % tla_set(sorted(G._PROCESS_RING_CACHE)))
+        asserts.append(("ring symbols", "ImplRing = AllRingSet"))
+    except Exception as e:
+        out.append("\\* symbol tables not extractable: %s" % type(e).__name__)
+    names = []
+    for i, (what, expr) in enumerate(asserts):
+        out.append("A%d == %s" % (i, expr))
+        out.append("ASSUME A%d" % i)
+        names.append(what)
+    out += ["VARIABLE x", "Init == x = 0", "Next == UNCHANGED x", "Spec == Init /\\ [][Next]_x", "===="]
+    return "\n".join(out) + "\n", names
